@@ -156,7 +156,7 @@ class Repo:
         elif isinstance(st, ast.ClassDef):
             owner = cls.qual if cls else m.name
             qual = f"{owner}.{st.name}"
-            c = Cls(qual=qual, name=st.name, module=m, node=st, base_exprs=[ast.unparse(b) for b in st.bases])
+            c = Cls(qual=qual, name=st.name, module=m, node=st, base_exprs=[ast.unparse(b.value if isinstance(b, ast.Subscript) else b) for b in st.bases])
             self.classes[qual] = c
             for sub in st.body:
                 if isinstance(sub, ast.Assign):
